@@ -233,6 +233,34 @@ def run(tier, seed, replay=None):
         elif m and " with 5 " in m[0]:
             p = rep.replay_file("early_timeout.txt", "harness/probe_expire_batch.c (schedule of AioProofs.early_timeout_run):\n" + "\n".join(out) + "\n")
             rep.violation(p, "timeout delivered long before the deadline: " + m[0])
+    # ---- 4. directed: bursts beyond NNI_EXPIRE_BATCH (ExpireScan.rounds_mark_all_due) and nng_aio_free while the
+    #         expire thread is inside the aio's cancel function (aio_stop_no_expire_reference)
+    probe2, err = wb_build(bdir, "probe_aio_directed.c")
+    directed_out = None
+    if probe2 is None:
+        p = rep.replay_file("probe2_build.txt", err)
+        rep.violation(p, "directed aio probe does not build", nofail=True)
+    else:
+        bursts = [(rng.choice([40, 99, 100]), 20), (rng.choice([101, 150, 199, 200]), 20), (rng.choice([201, 260, 333]), 15)]
+        if tier != "quick":
+            bursts += [(n, 10) for n in (100, 101, 300, 450)]
+        script = "".join("burst %d %d\n" % b for b in bursts) + "freeexp\n"
+        rc, out, errtxt = run_prog(probe2, script, timeout=300)
+        directed_out = out
+        rep.cov["evaluations"] += len(bursts) + 1
+        if rc != 0:
+            p = rep.replay_file("directed_crash.txt", script + "\n".join(out) + errtxt[-3000:])
+            rep.violation(p, "directed aio probe crashed (rc=%s): %s" % (rc, san_summary(errtxt)))
+        else:
+            for l in out:
+                m = re.match(r"burst n=(\d+) ms=(\d+) completed=(\d+) ok=(\d+)", l)
+                if m and (m.group(1) != m.group(3) or m.group(1) != m.group(4)):
+                    p = rep.replay_file("burst_forgotten.txt", "harness/probe_aio_directed.c: echo 'burst %s %s' | probe_aio_directed\n%s\n" % (m.group(1), m.group(2), l))
+                    rep.violation(p, "%s sleeps of %s ms started together: only %s completed (due operations beyond the expire batch are forgotten)" % (m.group(1), m.group(2), m.group(3)))
+                m = re.match(r"freeexp .*cancel_still_running_at_return=(\d)", l)
+                if m and m.group(1) != "0":
+                    p = rep.replay_file("free_during_expiry.txt", "harness/probe_aio_directed.c: echo freeexp | probe_aio_directed\n%s\n" % l)
+                    rep.violation(p, "nng_aio_free returned while the expire thread was still inside that aio's cancel function: " + l)
     if tot_bad > 0:
         p = rep.replay_file("late_abort_stress.txt", "under concurrent stress %d of %d callbacks read a result other than the one the operation completed with\n(an abort arriving between completion and callback overwrites a_result: nni_aio_abort with a_cancel_fn == NULL)\nreplay: echo 'stress %d 300 4 4' | wb_aio\n" % (tot_bad, tot_sub, seed * 1000))
         rep.violation(p, "callback read a result other than the completion's (%d of %d under stress)" % (tot_bad, tot_sub), key=KEY_LATE)
@@ -242,7 +270,7 @@ def run(tier, seed, replay=None):
                     "traces_validated_against_impl": nstress, "trace_records_replayed": tot_rec,
                     "trace_kind_histogram": kinds, "unlocked_reset_races_observed": tot_race,
                     "stress_operations": tot_sub, "stress_callbacks_with_foreign_result": tot_bad,
-                    "expire_batch_probe": probe_out, "scripted_cases": len(cases), "scripted_divergences": len(diverged),
+                    "expire_batch_probe": probe_out, "directed_probe": directed_out, "scripted_cases": len(cases), "scripted_divergences": len(diverged),
                     "rule": "scripted: random sequences of begin/finish/cancel/abort/sleep/timeouts/advance(virtual clock)/stop on 1-3 aios with a test provider over the public provider API, implementation vs model line by line + oracle (exactly once, results, stop, no early timeout); stress: 4-8 threads of random concurrent operations on 4-7 aios with the H2 trace on, every logged critical section replayed through the extracted AioFw.fw_step, per-aio submission/callback counters",
                     "samples": [cases[0][:14]],
                     "observations": ["nni_aio_reset writes a_abort/a_result/a_expire_ok/a_sleep without eq_mtx and races with nni_aio_abort (counted as unlocked_reset_races, not a conformance failure)"]})
